@@ -204,3 +204,17 @@ package internal_planner
 //@ func (*LimitPlanner).Process$2 [C12]
 //@   requires sent >= 0 && (limit >= 0 ==> sent <= limit)
 //@   check never-more-than-limit: limit >= 0 ==> sent <= limit
+
+// The `| json` stage without parameters: every scalar leaf of the (nested) object
+// becomes a label whose name is the path to that leaf joined with "_" - for string
+// leaves and for every other scalar alike - and a nested object is walked under
+// the path that leads to it.
+//@ func sanitizeLabel
+//@   flag function
+//@   modifies nothing
+//@ func (*ParserPlanner).subDec
+//@   modifies mapof(*labels)
+//@ func (*ParserPlanner).subDec$1 [C09]
+//@   flag checks=-index
+//@   at sanitizeLabel leaf-named-by-its-path: arg0 == (prefix != "" ? prefix + "_" + key : prefix + key)
+//@   at subDec nested-object-under-its-path: arg1 == (prefix != "" ? prefix + "_" + key : prefix + key)
